@@ -66,6 +66,40 @@ type c05Out struct {
 
 var c05None = c05Out{"none", 0}
 
+// interface{} family, second concretisation ("print-alike"): distinct abstract elements become values of DIFFERENT Go types that
+// print the same (1, "1", int64(1); 0, "0"), so an implementation that identifies elements by their printed form is told apart
+// from one that uses Go equality.  The generic twin keeps plain ints; results are compared in the abstract space.
+var c05Alike bool
+
+func cI(x int) interface{} {
+	if !c05Alike {
+		return x
+	}
+	switch x {
+	case 2:
+		return "1"
+	case 3:
+		return int64(1)
+	case 4:
+		return "0"
+	}
+	return x
+}
+func aI(v interface{}) int {
+	switch t := v.(type) {
+	case int:
+		return t
+	case string:
+		if t == "1" {
+			return 2
+		}
+		return 4
+	case int64:
+		return 3
+	}
+	panic(fmt.Sprintf("aI %T", v))
+}
+
 func ints(s []int, nilV bool) []int {
 	if len(s) == 0 && nilV {
 		return nil
@@ -78,14 +112,14 @@ func ifaces(s []int, nilV bool) []interface{} {
 	}
 	r := make([]interface{}, 0, len(s)+2)
 	for _, x := range s {
-		r = append(r, x)
+		r = append(r, cI(x))
 	}
 	return r
 }
 func unIfaces(s []interface{}) []int {
 	r := make([]int, len(s))
 	for i, x := range s {
-		r[i] = x.(int)
+		r[i] = aI(x)
 	}
 	return r
 }
@@ -111,7 +145,7 @@ func imap(ps [][2]int, nilV bool) map[interface{}]interface{} {
 	}
 	m := map[interface{}]interface{}{}
 	for _, p := range ps {
-		m[p[0]] = p[1]
+		m[cI(p[0])] = p[1]
 	}
 	return m
 }
@@ -127,7 +161,7 @@ func ipairs(m map[interface{}]interface{}) [][]int {
 	r := make([][]int, 0, len(m))
 	for k, v := range m {
 		vi, _ := v.(int)
-		r = append(r, []int{k.(int), vi})
+		r = append(r, []int{aI(k), vi})
 	}
 	sort.Slice(r, func(i, j int) bool { return r[i][0] < r[j][0] })
 	return r
@@ -143,7 +177,7 @@ func gkeys(m map[int]int) []int {
 func ikeys(m map[interface{}]interface{}) []int {
 	r := make([]int, 0, len(m))
 	for k := range m {
-		r = append(r, k.(int))
+		r = append(r, aI(k))
 	}
 	sort.Ints(r)
 	return r
@@ -215,14 +249,14 @@ func imapR(ps [][2]int, nilV bool) map[interface{}]int {
 	}
 	m := map[interface{}]int{}
 	for _, p := range ps {
-		m[p[0]] = p[1]
+		m[cI(p[0])] = p[1]
 	}
 	return m
 }
 func ipairsR(m map[interface{}]int) [][]int {
 	r := make([][]int, 0, len(m))
 	for k, v := range m {
-		r = append(r, []int{k.(int), v})
+		r = append(r, []int{aI(k), v})
 	}
 	sort.Slice(r, func(i, j int) bool { return r[i][0] < r[j][0] })
 	return r
@@ -248,7 +282,7 @@ func c05SliceI(c *c05Case) c05Out {
 	case "Distinct":
 		return seqO(unIfaces(fpgo.DistinctForInterface(a...)))
 	case "Exists":
-		return boolO(fpgo.ExistsForInterface(c.X, a...))
+		return boolO(fpgo.ExistsForInterface(cI(c.X), a...))
 	case "SliceToMap":
 		return pairsO(ipairsR(fpgo.SliceToMapForInterface(c.X, a...)))
 	case "Keys":
@@ -325,7 +359,7 @@ func c05StreamI(c *c05Case) c05Out {
 	case "Reverse":
 		return arr(s.Reverse())
 	case "Contains":
-		return boolO(s.Contains(c.X))
+		return boolO(s.Contains(cI(c.X)))
 	case "RemoveItem":
 		return arr(s.RemoveItem(ifaces(c.Xs, c.NilV)...))
 	case "Append":
@@ -375,7 +409,7 @@ func isetFrom(ps [][2]int, nilV bool) *fpgo.SetForInterfaceDef {
 	}
 	s = fpgo.SetForInterfaceDef{}
 	for _, p := range ps {
-		s.Set(p[0], p[1])
+		s.Set(cI(p[0]), p[1])
 	}
 	return &s
 }
@@ -395,7 +429,7 @@ func c05MapSetI(c *c05Case) c05Out {
 	case "IsSupersetByKey":
 		return boolO(s.IsSupersetByKey(in))
 	case "ContainsKey":
-		return boolO(s.ContainsKey(c.X))
+		return boolO(s.ContainsKey(cI(c.X)))
 	case "ContainsValue":
 		return boolO(s.ContainsValue(c.X))
 	case "Clone":
@@ -405,7 +439,14 @@ func c05MapSetI(c *c05Case) c05Out {
 	case "RemoveKeys":
 		return keys(s.RemoveKeys(ifaces(c.Xs, c.NilV)...))
 	case "RemoveValues":
-		return keys(s.RemoveValues(ifaces(c.Xs, c.NilV)...))
+		vals := make([]interface{}, 0, len(c.Xs)) // values are plain ints in both concretisations
+		for _, x := range c.Xs {
+			vals = append(vals, x)
+		}
+		if len(c.Xs) == 0 && c.NilV {
+			vals = nil
+		}
+		return keys(s.RemoveValues(vals...))
 	}
 	panic("c05 mapset op " + c.Op)
 }
@@ -421,7 +462,7 @@ func gss(ps []kvSeq, nilV bool) *fpgo.StreamSetDef[int, int] {
 func iss(ps []kvSeq, nilV bool) *fpgo.StreamSetForInterfaceDef {
 	m := map[interface{}]*fpgo.StreamForInterfaceDef{}
 	for _, p := range ps {
-		m[p.K] = fpgo.StreamForInterface.FromArray(ifaces(p.V, nilV))
+		m[cI(p.K)] = fpgo.StreamForInterface.FromArray(ifaces(p.V, nilV))
 	}
 	return fpgo.StreamSetForInterfaceFromMap(m)
 }
@@ -444,7 +485,7 @@ func ikmap(m map[interface{}]interface{}) c05Out {
 		if sp, ok := v.(*fpgo.StreamForInterfaceDef); ok && sp != nil {
 			arr = unIfaces(sp.ToArray())
 		}
-		r = append(r, kvSeq{k.(int), arr})
+		r = append(r, kvSeq{aI(k), arr})
 	}
 	sort.Slice(r, func(i, j int) bool { return r[i].K < r[j].K })
 	return c05Out{"kmap", r}
@@ -571,6 +612,12 @@ func c05Main(args []string) error {
 					w.write(map[string]interface{}{"case": c, "g": g, "i": i})
 					n++
 				}
+				c.NilV = false
+				c05Alike = true // third pass: the interface{} family on print-alike values of different types
+				g, i := c05Exec(&c)
+				c05Alike = false
+				w.write(map[string]interface{}{"case": c, "g": g, "i": i})
+				n++
 				return nil
 			})
 			if err != nil {
